@@ -186,6 +186,15 @@ def vspecStep (st : DState) (toks : List String) (o : Out) (nextVerBefore : Nat)
         | .err c => (st, s!"err {c.name}")
         | .panic _ => (st, "panic"))
      | none => (st, "err NoSuchBucket"))
+  | ["mpcomplete", b, k, _, _] =>
+    -- an accepted complete is an upload of the assembled object (what is assembled is C06's
+    -- subject: the bytes are read from the store the complete has just written)
+    (match o with
+     | .ok =>
+       (match vb st (fromHex b), Mem.get st.mem (fromHex b) (fromHex k) with
+        | some v, .ok cur => (setVb st (fromHex b) (Spec.Versions.put v (fromHex k) (nextVerBefore + 1) cur.body), "ok")
+        | _, _ => (st, "-"))
+     | _ => (st, "-"))
   | ["del", b, k] =>
     (match vb st (fromHex b) with
      | some v => (setVb st (fromHex b) (Spec.Versions.delete v (fromHex k) (nextVerBefore + 1)), "ok")
